@@ -498,6 +498,11 @@ def mutants(prog, rnd, per_op):
         for how in ("cb-not-event", "cb-param-type", "cb-arity", "cb-ret", "cb-unknown", "trigger-unknown", "trigger-not-imported", "arg-type", "arg-arity",
                     "cb-param-name", "self"):
             emit(trig_mut(how), "trigger-" + how)
+    # a global named like a function of the module
+    for fname in [f for f in fnames if f != "main"][:2]:
+        def m(q, fname=fname):
+            q["globals"].append({"x": fname, "e": I(1)})
+        emit(m, "global-named-like-function")
     # type definitions: the name stands for another type (every use of it changes meaning), or the definition goes away
     tdefs = [j for j, n in enumerate(nodes([prog["fns"][f]["body"] for f in fnames])) if n.get("k") == "typedef"]
     for j in tdefs[:per_op]:
